@@ -29,6 +29,7 @@ func (d *Drv) Exec(op *Op, x *Exp, opIdx int) (res Result) {
 		delete(d.touched, k)
 	}
 	d.cbSeen = nil
+	d.triedStructural = false
 	d.Stat.Ops[op.K]++
 	d.Stat.Paths[op.Path]++
 	func() {
@@ -88,6 +89,7 @@ func (d *Drv) batchCbPtrs(op *Op, x *Exp, cs []int) func(ecs.Entity, typed.Ptrs)
 		if !d.W.IsLocked() {
 			d.viol("C09", "batch-cb-unlocked", "world not locked inside batch callback")
 		}
+		d.structuralRejected("batch callback")
 		if !d.W.Alive(h) {
 			d.viol("C06", "batch-cb-dead", "batch callback for dead entity %v", h)
 			return
@@ -112,6 +114,36 @@ func (d *Drv) batchCbEnt(x *Exp) func(ecs.Entity) {
 		if !d.W.IsLocked() {
 			d.viol("C09", "batch-cb-unlocked", "world not locked inside batch callback")
 		}
+		d.structuralRejected("batch callback")
+	}
+}
+
+// structuralRejected attempts one structure-changing operation inside a locked callback (first
+// invocation per op only): it must panic; the sweep after the op proves it had no effect.
+func (d *Drv) structuralRejected(where string) {
+	if d.triedStructural || !d.W.IsLocked() {
+		return
+	}
+	d.triedStructural = true
+	var what string
+	defer func() {
+		if recover() == nil {
+			d.viol("C07", "structural-in-callback", "%s succeeded inside a locked %s", what, where)
+		}
+	}()
+	switch d.opIdx % 4 {
+	case 0:
+		what = "World.NewEntity"
+		d.W.NewEntity()
+	case 1:
+		what = "Unsafe.NewEntity"
+		d.U.NewEntity(d.ID[u.IP8])
+	case 2:
+		what = "World.Reset"
+		d.W.Reset()
+	default:
+		what = "World.NewEntities"
+		d.W.NewEntities(2, nil)
 	}
 }
 
